@@ -592,3 +592,60 @@ func (t jsonTime) MarshalJSON() ([]byte, error) {
 }
 
 func fmtVal(v float64) string { return strconv.FormatFloat(v, 'f', -1, 64) }
+
+// ---------------------------------------------------------------------------------------------
+// collector: a run reports the violations of one invariant only (the first in priority order that
+// fired). The kit minimises and confirms a replay per invariant; violations of a second invariant
+// riding on the same replay file would not survive the minimisation of the first.
+
+type finding struct{ inv, sig, detail string }
+
+type collector struct {
+	mu sync.Mutex
+	f  []finding
+}
+
+func (c *collector) add(inv, sig, format string, args ...any) {
+	c.mu.Lock()
+	c.f = append(c.f, finding{inv, sig, fmt.Sprintf(format, args...)})
+	c.mu.Unlock()
+}
+
+func (c *collector) any() bool {
+	c.mu.Lock()
+	defer c.mu.Unlock()
+	return len(c.f) > 0
+}
+
+// flush reports the findings of the highest-priority invariant that fired; invariants not listed in
+// priority rank after the listed ones, in order of first appearance.
+func (c *collector) flush(x *simkit.Exec, priority ...string) {
+	c.mu.Lock()
+	defer c.mu.Unlock()
+	if len(c.f) == 0 {
+		return
+	}
+	chosen := ""
+	for _, p := range priority {
+		for _, f := range c.f {
+			if f.inv == p {
+				chosen = p
+				break
+			}
+		}
+		if chosen != "" {
+			break
+		}
+	}
+	if chosen == "" {
+		chosen = c.f[0].inv
+	}
+	seen := map[string]bool{}
+	for _, f := range c.f {
+		if f.inv != chosen || seen[f.sig] {
+			continue
+		}
+		seen[f.sig] = true
+		x.Violate(f.inv, f.sig, "%s", f.detail)
+	}
+}
